@@ -53,6 +53,12 @@ def view_sites(idx):
 
 
 def run_rule(run, rule_id="F-VIEW"):
+    _run_sites_rule(run, rule_id)
+    from . import viewoffsets
+    viewoffsets.run_rule(run, "F-VIEW.offsets")
+
+
+def _run_sites_rule(run, rule_id="F-VIEW"):
     run.begin(
         rule_id,
         "every construction of a qualified object that aliases the receiver's storage (slice, element, iteration, "
@@ -104,21 +110,7 @@ def run_rule(run, rule_id="F-VIEW"):
                     ok2 = args == ["arg", "base_offset"]
                     exp = "Offset(arg, base_offset)"
                 run.ob(ok2, construct, file=mod.rel, line=last.lineno, detail="_ref_spec.index", expected=exp, found=f"{kind2}({', '.join(args)}) for self._value[{src(applied) if applied is not None else '?'}]")
-            elif name.endswith("__iter__"):
-                ok2 = kind2 == "Offset" and args == ["offset + nr", "[]"]
-                run.ob(ok2, construct, file=mod.rel, line=last.lineno, detail="_ref_spec.index", expected="Offset(offset + nr, [])", found=f"{kind2}({', '.join(args)})")
-    # base offset chain and prev in __getitem__ / __iter__
-    tq = idx.mod(TQ)
-    gi = tq.func("TypeQualifier.__getitem__")
-    t = P.T(gi.node)
-    ok = "base_offset = [*last_ref.base_offset, last_ref.stop]" in t and "prev = ref_spec[:-1]" in t and "base_offset = []" in t
-    bo = [a for a in ast.walk(gi.node) if isinstance(a, ast.Assign) and dotted(a.targets[0]) == "base_offset"]
-    run.ob(ok, "TypeQualifier.__getitem__", file=tq.rel, line=(bo[0].lineno if bo else gi.node.lineno), detail="nested-slice-offset",
-           expected="base_offset = [*last_ref.base_offset, last_ref.stop] (offsets of all enclosing slices accumulate)", found="; ".join(src(a.value) for a in bo))
-    it = tq.func("TypeQualifier.__iter__")
-    t = P.T(it.node)
-    ok = "offset = self._ref_spec[-1].stop" in t and "prev = self._ref_spec[:-1]" in t and "enumerate(self._value)" in t
-    run.ob(ok, "TypeQualifier.__iter__", file=tq.rel, line=it.node.lineno, detail="slice-offset", expected="elements of a slice are offset by the slice's stop index", found="ok" if ok else "changed")
+            # (the index arithmetic of __iter__ and of nested slices is decided semantically by F-VIEW.offsets)
     # the two rewrite sites outside the class
     for rel, q, rootexpr in ((IRR, "CodeBlock._fix_alias.<locals>.apply_alias", "alias_map[obj._root]"), (GEN, "IrGenerator.convert_sequential.<locals>.replace_temporaries", "temp_replacement[parent]")):
         m = idx.mod(rel)
